@@ -130,12 +130,21 @@ SignerFields(key, keyOwner, rrs, inc, exp) ==
 \* the buffer handed to SignRaw::sign_raw: ProtoRrsig::compose_canonical,
 \* then Record::compose_canonical of every record of the sorted RRset
 \* (owner lower-cased as it stands, the record's own TTL)
-SignerOctets(f, rrs) ==
-  LET s == SortRrs(rrs)
-  IN SigPrefix(f) \o
+\* sign_sorted_rrset_in proper: it *trusts* the order (and the absence of
+\* duplicates) of the RRset it is handed - "The RRset must be sorted in
+\* canonical ordering before calling this function"
+TrustingOctets(f, s) ==
+  SigPrefix(f) \o
      Concat([i \in 1..Len(s) |->
                RrForm(s[i].owner, s[i].type, s[i].class, s[i].ttl,
                       RdCanon(s[i].type, s[i].rd))])
+\* sign_rrset: sorts a copy by canonical RDATA, then the above
+SignerOctets(f, rrs) == TrustingOctets(f, SortRrs(rrs))
+\* the precondition of the trusting entry points (RFC 4034 6.3): strictly
+\* ascending canonical RDATA - sorted and free of duplicates
+CanonicalRrset(s) ==
+  \A i \in 1..(Len(s) - 1) :
+     LexCmp(RdCanon(s[i].type, s[i].rd), RdCanon(s[i + 1].type, s[i + 1].rd)) < 0
 
 --------------------------------------------------------------------------
 (* 3. The validator (RrsigExt::signed_data) *)
@@ -206,6 +215,26 @@ RsaWellFormed(pub) ==
   IN /\ h.ok /\ Len(pub) > h.off + h.len
      /\ h.len <= 512 /\ Len(pub) - h.off - h.len <= 512
      /\ pub[h.off + 1] # 0 /\ pub[h.off + h.len + 1] # 0
+
+\* RFC 3110 2 on exponent and modulus as numbers (before encoding): what
+\* RsaEncode can express and a decoder must take back
+RsaInRange(e, n) ==
+  /\ Len(TrimZeros(e)) \in 1..512 /\ Len(TrimZeros(n)) \in 1..512
+\* backend limits (crypto/ring.rs): signatures are verified with RSA moduli
+\* from 1024 bits, made with moduli from 2048 bits; the upper limit on both
+\* sides is RFC 3110's 4096 bits
+VerifyMinModOctets == 128
+SignMinModOctets   == 256
+\* the validator-side decision to take a DNSKEY as a public key at all
+\* (PublicKey::from_dnskey behind verify_signed_data): every well-formed key
+\* of a verifiable algorithm whose size the backend supports - in
+\* particular every key the signer side can sign with
+ValidatorAccepts(key) ==
+  /\ key.alg \in VerifyAlgs
+  /\ key.alg \in RsaAlgs => RsaWellFormed(key.pub) /\ Len(RsaMod(key.pub)) >= VerifyMinModOctets
+SignerAccepts(key) ==
+  /\ key.alg \in SignAlgs
+  /\ key.alg \in RsaAlgs => RsaWellFormed(key.pub) /\ Len(RsaMod(key.pub)) >= SignMinModOctets
 
 \* the size of a well-formed key in bits: RSA - the modulus without leading
 \* zero bits; ECDSA - the curve (RFC 6605 4: two coordinates); EdDSA - the
